@@ -41,14 +41,15 @@ def dump_mir(logdir, crate="quinn-proto"):
     way as for Kani: no default features, `tracing` replaced by the no-op shim (logging has an empty body)."""
     os.makedirs(MIRDIR, exist_ok=True)
     out = os.path.join(MIRDIR, crate.replace("-", "_") + ".mir")
-    ws = os.path.join(BUILD, "mirws")
+    tag = "" if os.path.abspath(REPO) == "/repo" else "-" + hashlib.sha256(os.path.abspath(REPO).encode()).hexdigest()[:8]
+    ws = os.path.join(BUILD, "mirws" + tag)       # one workspace per source tree: concurrent runs on different trees never share one
     os.makedirs(os.path.join(ws, "src"), exist_ok=True)
     toml = MIRWS_TOML % (REPO, REPO, VERIF)
     if not os.path.exists(os.path.join(ws, "Cargo.toml")) or open(os.path.join(ws, "Cargo.toml")).read() != toml:
         open(os.path.join(ws, "Cargo.toml"), "w").write(toml)
     open(os.path.join(ws, "src", "lib.rs"), "w").write("")
     shutil.copyfile(os.path.join(REPO, "Cargo.lock"), os.path.join(ws, "Cargo.lock"))
-    tdir = os.path.join(BUILD, "mir-target")
+    tdir = os.path.join(BUILD, "mir-target" + tag)
     # force rustc to run again for quinn-proto without touching files in /repo
     p = os.path.join(tdir, "debug", ".fingerprint")
     if os.path.isdir(p):
